@@ -120,6 +120,7 @@ func (vc *VC) callWith(com *ssa.CallCommon, args []string, recv string, ins ssa.
 				continue
 			}
 			env := vc.callSiteEnv(d)
+			env.local = vc.siteLocals(ins)
 			name := "[" + strings.Join(ac.Labels, ",") + "]"
 			if len(ac.Labels) == 0 {
 				name = fmt.Sprintf("assert@call:%s@%d", ac.Callee, ac.Line)
@@ -152,7 +153,7 @@ func (vc *VC) dispatch(d *callDesc) []string {
 		// in-module function without a contract that cannot be inlined: havoc its inferred modset
 		vc.r().uncontracted[key] = true
 		for _, h := range sortedKeys(vc.P.modsetOf(d.fn)) {
-			vc.havocH(vc.st, h)
+			vc.havocCallH(h)
 		}
 		vc.havocH(vc.st, "$next")
 		return vc.freshResults(sig, "uc")
@@ -202,7 +203,7 @@ func (vc *VC) decodeInto(a *ssa.Alloc, key string) {
 		}
 		vc.pre.heap(h, srt)
 		old := vc.getH(vc.st, h, srt)
-		vc.havocH(vc.st, h)
+		vc.havocCallH(h)
 		cur := vc.getH(vc.st, h, srt)
 		done = append(done, hv{h, old, cur})
 		vc.assume(fmt.Sprintf("(forall ((r Int)) (! (=> (and (< r %s) (not (= r %s))) (= (select %s r) (select %s r))) :pattern ((select %s r))))", nextOld, ref, cur, old, cur))
@@ -210,8 +211,8 @@ func (vc *VC) decodeInto(a *ssa.Alloc, key string) {
 	vc.havocH(vc.st, "$next")
 	for _, x := range done {
 		t := hs[x.name]
-		if t == nil {
-			continue
+		if t == nil || strings.HasPrefix(x.name, "HM") {
+			continue // map heaps hold one array per map object: only the frame above is stated
 		}
 		var f string
 		switch types.Unalias(t).Underlying().(type) {
@@ -539,7 +540,7 @@ func sortedKeys(m map[string]bool) []string {
 
 func (vc *VC) havocAll() {
 	for _, h := range sortedKeys(vc.P.allWrittenHeaps()) {
-		vc.havocH(vc.st, h)
+		vc.havocCallH(h)
 	}
 	vc.havocH(vc.st, "$next")
 }
@@ -551,7 +552,7 @@ func (vc *VC) defaultExternal(d *callDesc) {
 	vc.r().defaultExt[d.key] = true
 	if d.com != nil {
 		for _, h := range vc.P.externalMods(d.com, d.key) {
-			vc.havocH(vc.st, h)
+			vc.havocCallH(h)
 		}
 	}
 	vc.havocH(vc.st, "$next")
@@ -781,7 +782,7 @@ func (vc *VC) applyContract(c *Contract, d *callDesc) []string {
 		mods[ga.Var] = true
 	}
 	for _, h := range sortedKeys(mods) {
-		vc.havocH(vc.st, h)
+		vc.havocCallH(h)
 	}
 	vc.havocH(vc.st, "$next")
 	res := vc.freshResults(sig, "r")
@@ -833,7 +834,7 @@ func (vc *VC) applyBehaviors(bs []*Contract, d *callDesc) []string {
 		mods = vc.P.modsetOf(fn)
 	}
 	for _, h := range sortedKeys(mods) {
-		vc.havocH(vc.st, h)
+		vc.havocCallH(h)
 	}
 	vc.havocH(vc.st, "$next")
 	res := vc.freshResults(sig, "r")
@@ -937,4 +938,87 @@ func (vc *VC) bindResults(env *Env, sig *types.Signature, res []TV) {
 
 func isErrorType(t types.Type) bool {
 	return t != nil && typeStr(t) == "error"
+}
+
+// siteLocals resolves source-level local variable names at an instruction: the value most recently bound
+// to the name by a debug reference in a dominating position, or the content of an address-taken local.
+func (vc *VC) siteLocals(at ssa.Instruction) func(name string) (TV, bool) {
+	return func(name string) (TV, bool) {
+		if at == nil {
+			return TV{}, false
+		}
+		b := at.Block()
+		for _, blk := range vc.fn.Blocks {
+			for _, ins := range blk.Instrs {
+				if al, ok := ins.(*ssa.Alloc); ok && al.Comment == name {
+					if _, ok := vc.vals[al]; !ok {
+						continue
+					}
+					a := vc.addrOf(al)
+					return TV{T: vc.load(a, vc.st), Ty: al.Type().(*types.Pointer).Elem()}, true
+				}
+			}
+		}
+		var found ssa.Value
+		for _, blk := range vc.fn.Blocks {
+			if !blk.Dominates(b) {
+				continue
+			}
+			for _, ins := range blk.Instrs {
+				if blk == b && ins == at {
+					break
+				}
+				if dr, ok := ins.(*ssa.DebugRef); ok && !dr.IsAddr && identName(dr) == name {
+					if _, ok := vc.vals[dr.X]; ok || isConst(dr.X) {
+						found = dr.X
+					}
+				}
+			}
+		}
+		if found != nil {
+			return TV{T: vc.val(found), Ty: found.Type()}, true
+		}
+		return TV{}, false
+	}
+}
+
+// havocCallH forgets heap h because a callee may write it, except for the local variables of the
+// functions being translated whose address never leaves their function: no callee can reach those.
+func (vc *VC) havocCallH(h string) {
+	srt, ok := vc.pre.heapSort[h]
+	if !ok {
+		srt = vc.heapSortByName(h)
+	}
+	if srt == "" || !strings.HasPrefix(srt, "(Array Int ") {
+		vc.havocH(vc.st, h)
+		return
+	}
+	vc.pre.heap(h, srt)
+	old := vc.getH(vc.st, h, srt)
+	vc.havocH(vc.st, h)
+	cur := vc.getH(vc.st, h, srt)
+	if cur == old {
+		return
+	}
+	seen := map[*ssa.Alloc]bool{}
+	for p := vc; p != nil; p = p.parent {
+		if p.fn == nil {
+			continue
+		}
+		for _, a := range vc.P.privateAllocs(p.fn) {
+			if seen[a] {
+				continue
+			}
+			seen[a] = true
+			t, ok := p.vals[a]
+			if !ok {
+				continue
+			}
+			for _, ph := range pointeeHeaps(a.Type().Underlying().(*types.Pointer).Elem()) {
+				if ph == h {
+					vc.assume(fmt.Sprintf("(= (select %s %s) (select %s %s))", cur, t, old, t))
+				}
+			}
+		}
+	}
 }
